@@ -378,12 +378,19 @@ bool counting_side(L* lr)
 }
 
 template<class LR>
-void body_late_reader_t()
+void body_late_reader_t(int prior)
 {
     if (!has_counting_flag<LR>::value) return;
-    g_functor_ran = false;
     hx::win_reset();
     LR* lr = new LR(0);
+    // earlier, completed modifications: the scenario must work in every generation, not only on a fresh object
+    for (int k = 0; k < prior; k++)
+        lr->modify([](Pair& x) {
+            hx::WriteWin w(&x, "earlier modify functor");
+            ++x.a;
+            ++x.b;
+        });
+    g_functor_ran = false;
     {
         Event r1_in, writer_done;
         bool counting0 = counting_side(lr);
@@ -406,11 +413,11 @@ void body_late_reader_t()
             });
             writer_done.set();
         }));
-        ids.push_back(spawn([lr, counting0, &writer_done] {
+        ids.push_back(spawn([lr, counting0, prior, &writer_done] {
             await([lr, counting0] { return counting_side(lr) != counting0; });
             typename LR::shared_handle h = lr->lock_shared();
             int v = hx::read_pair(*h, "reader 2 (arrived after the writer switched sides)");
-            MC_CHECK(v == 1, "stale-read", "a reader arriving after the flip observed %d", v);
+            MC_CHECK(v == prior + 1, "stale-read", "a reader arriving after the flip observed %d", v);
             writer_done.wait();  // deadlock detector: the writer must not wait for this handle
         }));
         for (int id : ids) join(id);
@@ -431,7 +438,7 @@ void body_held(int readers, int mods) { body_held_t<LR_T>(readers, mods); }  // 
 void body_many(int n) { body_many_t<LR_M>(n); }
 void body_throwing(int throw_at, int readers, int acq) { body_throwing_t<LR_T>(throw_at, readers, acq); }
 #ifdef MODE_C14
-void body_late_reader() { body_late_reader_t<LR_M>(); }
+void body_late_reader(int prior) { body_late_reader_t<LR_M>(prior); }
 #endif
 
 void make_items(const Options& o, std::vector<Item>& items)
@@ -439,11 +446,11 @@ void make_items(const Options& o, std::vector<Item>& items)
     bool thorough = o.tier == "thorough";
     int nform = 0;
 #ifdef MODE_C14
-    {
+    for (int prior = 0; prior <= 3; prior++) {
         Item it;
-        it.name = "lr_guarded<Pair> | reader 1 holds from before and releases once the writer is inside modify | writer: modify x1 | reader 2 "
+        it.name = "lr_guarded<Pair> after " + std::to_string(prior) + " completed modifications | reader 1 holds from before and releases once the writer is inside modify | writer: modify x1 | reader 2 "
                   "arrives after the writer switched the counting side and holds until the writer has finished";
-        it.body = [] { body_late_reader(); };
+        it.body = [prior] { body_late_reader(prior); };
         it.bounds = hx::tier_bounds(o, 3, 6);
         items.push_back(it);
     }
